@@ -282,7 +282,7 @@ class Engine:
                     return self.statistics
 
                 L += 1
-                Nl = np.append(Nl, 1)
+                Nl = np.append(Nl, 0)
                 vl = np.append(vl, vl[-1] / (2**beta))
                 cl = np.append(cl, cl[-1] * (2**gamma))
 
@@ -291,6 +291,8 @@ class Engine:
                     rmse, vl, cl
                 )
                 dNl = np.maximum(0, Ns - Nl)
+                # nothing has been simulated yet at the new level: it needs at least one sample
+                dNl[-1] = max(dNl[-1], 1)
                 sum_cost = np.append(sum_cost, 0.0)
 
                 next_process = copy.deepcopy(ml_processes[-1])
